@@ -39,3 +39,53 @@ def ddmin(items: list, fails, max_runs: int = 80) -> list:
         else:
             i += 1
     return cur
+
+
+def shrink_history(vio, evaluate, same=None, ops_key='ops', prelude_key='prelude', max_runs=60):
+    """Generic shrinker for history cases. `evaluate(case)` re-executes a case from a pristine
+    process state and returns a violation dict or None. Steps: confirm; drop the prelude
+    (earlier histories of the same process) entirely or history by history; delta-debug the
+    operation list. A candidate is kept only if the same violation class persists.
+    Returns the minimised violation dict, or None when the original case does not reproduce."""
+    if same is None:
+        want = (vio['clause'], vio['signature'].get('op'))
+
+        def same(v):
+            return v is not None and (v['clause'], v['signature'].get('op')) == want
+    budget = [max_runs]
+
+    def test(case):
+        if budget[0] <= 0:
+            return None
+        budget[0] -= 1
+        v = evaluate(case)
+        return v if same(v) else None
+
+    case = dict(vio['case'])
+    best = test(case)
+    if best is None:
+        return None
+    if case.get(prelude_key):
+        cand = dict(case, **{prelude_key: []})
+        v = test(cand)
+        if v is not None:
+            case, best = cand, v
+        else:
+            def pre_fails(sub):
+                return test(dict(case, **{prelude_key: sub})) is not None
+            small = ddmin(case[prelude_key], pre_fails, max_runs=max(0, budget[0] // 2))
+            cand = dict(case, **{prelude_key: small})
+            v = test(cand)
+            if v is not None:
+                case, best = cand, v
+    ops = case[ops_key]
+
+    def ops_fail(sub):
+        return test(dict(case, **{ops_key: sub})) is not None
+    small = ddmin(ops, ops_fail, max_runs=max(0, budget[0] - 1))
+    budget[0] = max(budget[0], 1)
+    cand = dict(case, **{ops_key: small})
+    v = test(cand)
+    if v is not None:
+        case, best = cand, v
+    return best
